@@ -5,11 +5,13 @@
     the four codecs are universally quantified and constrained by
     [codec_contracts] (Proofs/FastJson.v) — the contracts are what the tie
     tests against the real orjson / stdlib json.  The reference codec
-    (Model/JsonEnc.v) is proved on its own and inhabits the contracts. *)
+    (Model/JsonEnc.v) is proved on its own (no control byte; decoder inverts
+    encoder, text and byte level) and inhabits the contracts
+    (C17_reference_codec_satisfies_contracts, C17_nonvacuous). *)
 From Verif.Base Require Import Prelude JsonVal.
 From Verif.Model Require Import JsonEnc FastJson.
 From Verif.Spec Require Import C17.
-From Verif.Proofs Require Import JsonEncClean FastJson.
+From Verif.Proofs Require Import JsonEncClean FastJson JsonEncRoundInt JsonEncRoundVal JsonEncRoundContracts.
 Open Scope Z_scope.
 
 (** Encode under backend [a] (orjson importable or not), decode under backend
@@ -92,3 +94,63 @@ Theorem JsonEnc_single_frame :
     Spec_single_frame (ref_encode ftext p v).
 Proof. exact ref_encode_single_frame. Qed.
 Print Assumptions JsonEnc_single_frame.
+
+(** Reference codec, round trip with explicit fuel and continuation: for every
+    policy, every well-formed value (strings and keys are Unicode scalar
+    values; every float's text is a float token - number characters with at
+    least one of [.eE] - that the float reader gives back; integers
+    unbounded), every fuel [n >= size v] and every continuation that does not
+    start with a number character, the parser reads the rendered value and
+    stops exactly at the continuation. *)
+Theorem JsonEnc_roundtrip_fuel :
+  forall (F : Type) (ftext : F -> str) (fparse : str -> option F) (p : policy) (v : json F),
+    wf_value ftext fparse v ->
+    forall (n : nat) (rest : str), (size v <= n)%nat -> no_num_head rest ->
+      pval fparse n (render ftext p v ++ rest) = Some (v, rest).
+Proof. exact pval_render. Qed.
+Print Assumptions JsonEnc_roundtrip_fuel.
+
+(** (R) The reference decoder inverts the reference encoder on texts; the
+    entry point's fuel [S (length text)] is enough because
+    [size v <= length (render p v)] (size_le_length). *)
+Theorem JsonEnc_roundtrip :
+  forall (F : Type) (ftext : F -> str) (fparse : str -> option F) (p : policy) (v : json F),
+    wf_value ftext fparse v ->
+    ref_parse fparse (render ftext p v) = Some v.
+Proof. exact ref_parse_render. Qed.
+Print Assumptions JsonEnc_roundtrip.
+
+(** (B) The same on bytes: strict UTF-8 decoding of the UTF-8 encoding of the
+    text, then the parser. *)
+Theorem JsonEnc_roundtrip_bytes :
+  forall (F : Type) (ftext : F -> str) (fparse : str -> option F) (p : policy) (v : json F),
+    wf_value ftext fparse v ->
+    ref_decode fparse (ref_encode ftext p v) = Some v.
+Proof. exact ref_decode_encode. Qed.
+Print Assumptions JsonEnc_roundtrip_bytes.
+
+(** (C) The reference instantiation of the four codecs satisfies the eight
+    contracts on the domain of values well-formed for both float formatters,
+    provided no float text contains a character below 0x20 (the two
+    [single_line] contracts are claimed for EVERY value, not only on [dom]). *)
+Theorem C17_reference_codec_satisfies_contracts :
+  forall (F : Type) (ftext_o ftext_s : F -> str) (fparse : str -> option F),
+    (forall f, Forall (fun c => 32 <= c) (ftext_o f)) ->
+    (forall f, Forall (fun c => 32 <= c) (ftext_s f)) ->
+    codec_contracts (ref_enc_o ftext_o) (ref_enc_s ftext_s) (ref_dec_o fparse) (ref_dec_s fparse) fparse
+                    (fun v => wf_value ftext_o fparse v /\ wf_value ftext_s fparse v).
+Proof. exact ref_codec_contracts. Qed.
+Print Assumptions C17_reference_codec_satisfies_contracts.
+
+(** Non-vacuity: the premise [codec_contracts] of the wrapper theorems is
+    inhabited - by the reference codec with floats = RFC 8259 float tokens -
+    on a domain containing a nested value (a float, escapes, a non-BMP
+    character, 2^64-1), and on that value the wrapper run with these codecs
+    does round-trip under all four backend pairs. *)
+Example C17_nonvacuous :
+  exists (F : Type) enc_o enc_s dec_o dec_s (fparse : str -> option F) (dom : json F -> Prop) (v : json F),
+    codec_contracts enc_o enc_s dec_o dec_s fparse dom /\
+    dom v /\ in_domain v = true /\ (2 <= depth v)%nat /\
+    forall a b, exists s, dumps enc_o enc_s a kw_none v = Some s /\ loads dec_o dec_s b s = Some v.
+Proof. exact contracts_nonvacuous. Qed.
+Print Assumptions C17_nonvacuous.
